@@ -70,14 +70,17 @@ def bs_inst(label, **d):
     return {"label": label, "defines": ["%s=%s" % (k, v) for k, v in d.items()]}
 h3_quick = [bs_inst("leaves_n1_M_mask", MODE=1, NLEAVES=1, MDS="{1,0,0,0,0,0,0,0}", MASK=1),
             bs_inst("leaves_n2_hM_nomask", MODE=1, NLEAVES=2, MDS="{0,1,0,0,0,0,0,0}", MASK=0),
-            bs_inst("reset_n1_state", MODE=2, NLEAVES=1, MASK=1, STATE_ONLY=1)]
+            bs_inst("reset_n1_state", MODE=2, NLEAVES=1, MASK=1, STATE_ONLY=1),
+            # reset at other points: an EVEN number of pending leaves (they are joined into a higher slot, slot 0 is empty) and a signer that is still unused
+            bs_inst("reset_n2_state", MODE=2, NLEAVES=2, MASK=1, STATE_ONLY=1),
+            bs_inst("reset_n0_state", MODE=2, NLEAVES=0, MASK=1, STATE_ONLY=1)]
 h3_thorough = h3_quick + [bs_inst("leaves_n2_MM_mask", MODE=1, NLEAVES=2, MDS="{1,1,0,0,0,0,0,0}", MASK=1), bs_inst("reset_n1", MODE=2, NLEAVES=1, MASK=1),
                           bs_inst("leaves_n3_MhM_mask", MODE=1, NLEAVES=3, MDS="{1,0,1,0,0,0,0,0}", MASK=1),
                           bs_inst("leaves_n1_h_mask", MODE=1, NLEAVES=1, MDS="{0,0,0,0,0,0,0,0}", MASK=1),
                           bs_inst("reset_n2_closed", MODE=2, NLEAVES=2, MASK=1, CLOSE_BEFORE_RESET=1),
                           bs_inst("reset_n1_nomask", MODE=2, NLEAVES=1, MASK=0)]
 B_H3 = ("block signer with SHA2-256: 1-2 leaves (thorough up to 3) with / without per-leaf metadata (4-byte payload) and with / without blinding masks (8-byte initial value); all digests, payloads, "
-        "iv bytes symbolic, leaf levels symbolic 0..249; reset after 1 leaf (thorough: after 2 leaves and closeAndSign) compared field by field and by behaviour with a new signer; "
+        "iv bytes symbolic, leaf levels symbolic 0..249; reset after 0, 1 and 2 pending leaves (thorough: also after 2 leaves and closeAndSign) compared field by field and by behaviour with a new signer; "
         "KSI_Signature_signAggregated / KSI_Signature_free are recording stubs")
 plan = {
  "property": "C16",
